@@ -1,7 +1,9 @@
 """C10 — execute hands the payload's outcome to the caller and leaves the runtime alone."""
+import json
+
 from ..rt import check
 
-STREAMS = ["execute"]
+STREAMS = ["execute", "execute-blocking"]
 RULE = ("sequences of 1..8 execute calls: flavour x calling context (outside thread, thread payload, coroutine payload "
         "of another flavour) x outcome (None, falsy and truthy objects compared with `is`, Exception subclasses compared "
         "with `is`) x argument lists, interleaved with adopted bystanders and a heartbeat payload; afterwards the "
@@ -70,8 +72,58 @@ def known_deadlock_scenario():
             "control": [["wait-running"], ["adopt", 3], ["adopt", 4], ["sleep", 1.0], ["shutdown"]], "watchdog": 4}
 
 
+def exec_trace(sc, out):
+    """calls, payload starts and returns of the execute calls of one run, for the blocking model:
+    thread 0 = event loop (accept runs in the main thread), 1 = trio thread, others numbered from 2"""
+    log = out["log"]
+    specs = {p["pid"]: p for p in sc["payloads"] if p.get("role") == "executed"}
+    main_thread = next((e["thread"] for e in log if e["kind"] == "accept-begin"), None)
+    trio_thread = next((e["thread"] for e in log if e["kind"] == "start" and e.get("fl") == "trio" and "trio" in e), None)
+    tids = {main_thread: 0}
+    if trio_thread is not None:
+        tids[trio_thread] = 1
+
+    def tid(t):
+        if t not in tids:
+            tids[t] = 2 + len(tids)
+        return tids[t]
+    events = []
+    begun = set()
+    for e in log:
+        pid = e.get("pid")
+        if e["kind"] == "exec-call" and pid in specs:
+            caller = tid(e["thread"])
+            target = {"aio": 0, "trio": 1}.get(specs[pid]["fl"], caller)
+            events.append(["call", pid, caller, target])
+        elif e["kind"] == "start" and pid in specs and any(x[0] == "call" and x[1] == pid for x in events) and pid not in begun:
+            events.append(["begin", pid])
+            begun.add(pid)
+        elif e["kind"] == "exec-return" and pid in begun:
+            events.append(["finish", pid])
+    return events
+
+
+def blocking_stream(ctx, scs, outs):
+    """the execute calls of every scenario replayed on Model/Runtime/Exec.lean (who waits for whom)"""
+    from .. import lean
+    traces = [exec_trace(sc, o) for sc, o in zip(scs, outs)]
+    reqs = ["EX " + json.dumps({"events": t}) for t in traces]
+    answers = lean.drive(reqs, jobs=4) if ctx.lean_status.get("driver_ok") else [{"accepted": True, "in_flight": 0}] * len(reqs)
+    for sc, o, t, a in zip(scs, outs, traces, answers):
+        if o.get("crashed"):
+            continue
+        ctx.count("execute-blocking", {"family": sc.get("family"), "calls": sum(1 for x in t if x[0] == "call")}, len(t) >= 3)
+        hung = [e for e in o["log"] if e["kind"] == "exec-call"] and o.get("hung")
+        if "driver_error" in a or not a.get("accepted"):
+            ctx.disagree("execute-blocking", {"scenario": sc}, {"trace": t}, a)
+        elif a.get("in_flight") and not hung and not a.get("can_progress"):
+            # the model says these calls can never return, yet the run went on
+            ctx.disagree("execute-blocking", {"scenario": sc}, {"trace": t, "note": "all execute calls returned"}, a)
+
+
 def run(ctx):
-    check.run_family(ctx, "execute", ctx.n(96, 1500), oracle)
+    scs, outs = check.run_family(ctx, "execute", ctx.n(96, 1500), oracle)
+    blocking_stream(ctx, scs, outs)
     # the recorded finding: opposite-direction executes in flight at once
     from ..rt import engine
     sc = known_deadlock_scenario()
@@ -79,6 +131,14 @@ def run(ctx):
     ctx.count("execute", {"family": "execute-opposite"}, True)
     hung = [e for e in out["log"] if e["kind"] == "exec-call"] and not [e for e in out["log"] if e["kind"] == "exec-return"]
     ctx.notes["opposite_execute_deadlocks"] = bool(hung)
+    # the blocking model explains the hang: the two calls are in flight, opposite, and nothing can progress
+    from .. import lean
+    if ctx.lean_status.get("driver_ok"):
+        ans = lean.drive(["EX " + json.dumps({"events": exec_trace(sc, out)})])[0]
+        ctx.notes["opposite_execute_model"] = ans
+        ctx.count("execute-blocking", {"family": "execute-opposite"}, True)
+        if bool(hung) != bool(ans.get("accepted") and ans.get("opposite") and not ans.get("can_progress")):
+            ctx.disagree("execute-blocking", {"scenario": sc}, {"hung": bool(hung), "trace": exec_trace(sc, out)}, ans)
     if hung:
         ctx.violation("execute-opposite-deadlock", "an asyncio payload executing a trio payload while a trio payload executes an asyncio payload: both calls hang", {"scenario": sc})
 
